@@ -18,6 +18,17 @@ def main():
   with open(spec_path) as f:
     spec = json.load(f)
   repo = os.environ.get('VERIF_REPO', '/repo')
+  import logging
+  import resource
+  import faulthandler
+  import signal
+  logging.getLogger().addHandler(logging.NullHandler())
+  faulthandler.register(signal.SIGUSR1, all_threads=True)
+  try:
+    lim = int(os.environ.get('VERIF_MEM_MB', '6000')) * 1024 * 1024
+    resource.setrlimit(resource.RLIMIT_AS, (lim, lim))
+  except (ValueError, OSError):
+    pass
   import malt
   if not os.path.abspath(malt.__file__).startswith(os.path.abspath(repo) + os.sep):
     emit({'verdict': 'inconclusive', 'detail': 'malt not imported from %s: %s' % (repo, malt.__file__)})
